@@ -34,7 +34,7 @@ func SysGen() *rapid.Generator[Case] {
 			Target: rapid.SampledFrom([]string{"flush", "compaction", "compaction"}).Draw(t, "target"),
 			Nth:    rapid.IntRange(0, 3).Draw(t, "nth"),
 			Which:  rapid.SampledFrom([]string{"data", "index"}).Draw(t, "which"),
-			Pos:    rapid.IntRange(0, 4).Draw(t, "pos"),
+			Pos:    rapid.IntRange(-1, 4).Draw(t, "pos"), // -1: the Close (final flush) of that writer fails
 			Sticky: rapid.Bool().Draw(t, "sticky"),
 		}
 		return Case{Kind: "system", Sys: &SysCase{Program: p}}
@@ -85,9 +85,13 @@ func sysProp(c Case, x *h.Ctx) *h.Violation {
 	called := make([]bool, len(ops))
 	okRet := make([]bool, len(ops))
 	ret := make([]bool, len(ops))
-	armed, opErr := false, false
+	armed, opErr, fired := false, false, false
 	ab, _ := os.ReadFile(ack)
 	for _, ln := range strings.Split(string(ab), "\n") {
+		if strings.HasPrefix(ln, "fault-fired") {
+			fired = true
+			continue
+		}
 		f := strings.SplitN(ln, " ", 3)
 		if len(f) < 2 {
 			continue
@@ -123,6 +127,13 @@ func sysProp(c Case, x *h.Ctx) *h.Violation {
 	if oerr != nil {
 		return h.V("iofault/system/"+oerr.Phase+"-failed/"+p.Fault.Target+"/"+oerr.Class(), "%s; opening the directory afterwards failed in %s: %.600s\nchild output: %.600s", desc, oerr.Phase, oerr.Err, out.String())
 	}
+	if fired && exit == 0 && !opErr {
+		where := "a write"
+		if p.Fault.Pos < 0 {
+			where = "the Close (final flush)"
+		}
+		return h.V("iofault/system/absorbed/"+p.Fault.Target, "%s; the injected failure of %s fired, yet no operation returned an error and the process did not stop: the failure was absorbed\nchild output: %.600s", desc, where, out.String())
+	}
 	want := crash.ModelAfter(p, ops, acked)
 	d := crash.Diff(want, got)
 	if d != "" {
@@ -146,12 +157,18 @@ func sysProp(c Case, x *h.Ctx) *h.Violation {
 	if armed {
 		x.Label("fault-armed")
 	}
+	if fired {
+		x.Label("fault-fired")
+		if p.Fault.Pos < 0 {
+			x.Label("fault-fired-at-close")
+		}
+	}
 	if exit != 0 {
 		x.Label("child-stopped")
 	}
 	if opErr {
 		x.Label("operation-returned-error")
 	}
-	x.SetNonTrivial(armed && (exit != 0 || opErr))
+	x.SetNonTrivial(fired)
 	return nil
 }
